@@ -5,7 +5,7 @@ import sym
 import c12
 import panics
 
-CONFIGS_QUICK = ["F_all"]
+CONFIGS_QUICK = ["F_all", "F_def", "F_noenc"]  # every configuration whose cfg-gated code the property depends on
 CONFIGS_THOROUGH = ["F_all", "F_def", "F_noenc"]
 TECHNIQUE = 'static analysis: typestate/transition-relation extraction from MIR paths, back-edge progress rule, who-may-write rule for offsets, panic-site audit with local discharge arguments and audited exemptions, attribute-automaton termination premises (C11 table re-evaluated)'
 EXPLANATION = (
